@@ -160,11 +160,18 @@ def handcoded(vk, cfg):
     symbolic F, under the AD contract (stress = D(energy), P = F 2 dpsi/dC)"""
     if not vk.sym:
         return _handcoded_native(vk, cfg)
+    with M.canonical_roots():
+        _handcoded_sym(vk, cfg)
+
+
+def _handcoded_sym(vk, cfg):
     F = sym_F(vk)
     require_det(vk, F)
     mu = _par(vk, "mu")
     Fq = F[:, :, 0, 0]
     C = Fq.T @ Fq
+    J = det_ref(Fq)
+    M.hint_power(det_ref(C), J, 2)  # det(F^T F) == det(F)^2, det F > 0: fractional powers of both are the same term
     hand = vk.real(fem.NeoHooke)(mu=mu)
     vk.real(fem.NeoHooke.function)
     vk.real(fem.NeoHooke.gradient)
